@@ -254,7 +254,8 @@ def gvw_unit(ctx):
                                   bool(problem)))
     # a want that renders the output exactly as the REPL shows it (blank lines spelled <BLANKLINE>) is satisfied under
     # every flag setting that accepts the marker
-    for out in ['a\n\n', 'a\n\nb\n', '\n', 'a\n\n\nb\n', '\n\na\n', 'a b\n\n']:
+    for out in ['a\n\n', 'a\n\nb\n', '\n', 'a\n\n\nb\n', '\n\na\n', 'a b\n\n', 'a\n' + '\n' * 9 + 'b\n', '\n\n'.join('p%d' % i for i in range(14)) + '\n',
+                '\n\n'.join('q%d' % i for i in range(40)) + '\n\n']:
         body = out[:-1] if out.endswith('\n') else out
         want = '\n'.join(l if l else '<BLANKLINE>' for l in body.split('\n'))
         for i in range(16):          # DONT_ACCEPT_BLANKLINE (bit 4) off
